@@ -187,8 +187,8 @@ func gen(t *rapid.T) Case {
 				tg.Outputs = append(tg.Outputs, o)
 			}
 		}
-		if rapid.IntRange(0, 7).Draw(t, "inputs") == 0 {
-			in := rapid.SampledFrom([]string{"src.txt", "sub/../src.txt", "../src.txt", "sub/../../src.txt", "/etc/passwd", "./../x", "..", "a/..b"}).Draw(t, "input")
+		if rapid.IntRange(0, 5).Draw(t, "inputs") == 0 {
+			in := rapid.SampledFrom([]string{"src.txt", "sub/../src.txt", "a/..b", "./src.txt", "sub/./x/../y.txt", "..x", "../src.txt", "sub/../../src.txt", "/etc/passwd", "./../x", "..", "x/../../y"}).Draw(t, "input")
 			tg.Inputs = append(tg.Inputs, in)
 		}
 	}
@@ -225,8 +225,32 @@ func gen(t *rapid.T) Case {
 			}
 		}
 	}
+	// cluster mode: 3-4 targets declare outputs drawn from a family of paths whose
+	// lexicographic order does not follow the nesting order (d < d-x < d/e < dd)
+	if len(g.Targets) >= 3 && rapid.IntRange(0, 3).Draw(t, "cluster") == 0 {
+		base := rapid.SampledFrom([]string{"", "a"}).Draw(t, "clusterpkg")
+		family := []string{"dir::d", "dir::d/e", "dir::d/e/f", "dir::d-x", "dir::d.x", "dir::d+y", "dir::d x", "dir::dd", "dir::d/e-x", "d/f", "d-x/f", "d.x", "d/e/f/g"}
+		k := rapid.IntRange(3, min(4, len(g.Targets))).Draw(t, "clusterk")
+		idxs := rapid.SliceOfNDistinct(rapid.IntRange(0, len(g.Targets)-1), k, k, rapid.ID[int]).Draw(t, "clusteridx")
+		outs := rapid.SliceOfNDistinct(rapid.SampledFrom(family), k, k, rapid.ID[string]).Draw(t, "clusterouts")
+		for n, i := range idxs {
+			tg := &g.Targets[i]
+			typ, id := "", outs[n]
+			if strings.HasPrefix(id, "dir::") {
+				typ, id = "dir::", strings.TrimPrefix(id, "dir::")
+			}
+			rel, err := filepath.Rel(filepath.Join("/", tg.Pkg), filepath.Join("/", base, id))
+			if err != nil {
+				continue
+			}
+			if o := typ + rel; !selfOverlap(tg.Pkg, tg.Outputs, o) {
+				tg.Outputs = append(tg.Outputs, o)
+			}
+		}
+		c.Defects = append(c.Defects, "cluster")
+	}
 	// structural defects
-	switch rapid.IntRange(0, 11).Draw(t, "defect") {
+	switch rapid.IntRange(0, 17).Draw(t, "defect") - 4 { // rapid favours small values: the low end means "no injection"
 	case 0: // undefined dependency
 		i := rapid.IntRange(0, len(g.Targets)-1).Draw(t, "ui")
 		g.Targets[i].Deps = append(g.Targets[i].Deps, rapid.SampledFrom([]string{"//a:nosuch", "//nopkg:x", "//:missing"}).Draw(t, "ulabel"))
